@@ -72,6 +72,10 @@ fn partial_ctx(me: &str) -> MaybeUninit<ExecutionCtx<'static>> {
     u
 }
 
+fn random_state_stub() -> std::hash::RandomState {
+    unsafe { std::mem::transmute::<(u64, u64), std::hash::RandomState>((0, 0)) }
+}
+
 static mut TARGET_IS_ME: bool = false;
 
 /// reached only when the interpreter decides to canonicalize the stream on this peer
@@ -89,6 +93,7 @@ fn epilog(_s: CanonStream, _c: CID<CanonResultCidAggregate>, _ctx: &mut Executio
 
 #[kani::proof]
 #[kani::unwind(6)]
+#[kani::stub(std::hash::RandomState::new, random_state_stub)]
 #[kani::stub(alloc::fmt::format, fmt_stub)]
 fn c19_unseen_canon_forwards_or_canonicalizes() {
     let mut u = partial_ctx("me");
@@ -121,6 +126,7 @@ fn c19_unseen_canon_forwards_or_canonicalizes() {
 
 #[kani::proof]
 #[kani::unwind(6)]
+#[kani::stub(std::hash::RandomState::new, random_state_stub)]
 #[kani::stub(alloc::fmt::format, fmt_stub)]
 fn c11_pending_canon_request_kept_or_canonicalized() {
     let mut u = partial_ctx("me");
